@@ -209,3 +209,9 @@ TEXT["C07"].update(engine="kani+verus",
 TEXT["C12"].update(
     level=TEXT["C12"]["level"] + " Fixed part (Verus): Dhcp::serialise writes op/htype/hlen/hops, xid, secs, flags, the four addresses, chaddr/sname/file cut or zero padded to 16/64/128 octets and the magic cookie, followed by the option area; lemma_hdr_readback: those 240 octets read back, with the expressions of parse's own contract, to the same field values (chaddr when its length is hlen <= 16).",
     note=TEXT["C12"]["note"].replace("NOT decided: the fixed 236-octet header part of Dhcp::serialise (serialise_fixed padding/truncation against parse's null_terminated).", "NOT decided: read-back of sname/file (parse cuts them at the first zero octet: a value containing a zero octet does not survive, one without does -- not stated as a lemma)."))
+
+TEXT["C20"].update(
+    level=TEXT["C20"]["level"].replace("Deductive (unbounded): the listing has exactly one formatted entry per lease returned by get_leases, for any number of leases.",
+        "Deductive (unbounded): the listing has exactly one formatted entry per lease returned by get_leases, for any number of leases; json_string (the only place where client-chosen text enters the listing) returns a JSON string literal per RFC 8259 section 7 for EVERY input string: "
+        "quotation marks, reverse solidus and control characters escaped as \\\" \\\\ \\uXXXX, nothing else altered (machine-checked recogniser lemma)."),
+    note="NOT decided: the text core::fmt produces for the address, the hex client id and the integers, and the punctuation of the enclosing format strings (dropped by R4). update_metrics gauge wiring not under contract. Gauge boundary expiry == now: engine B, bounded.")
